@@ -262,6 +262,16 @@ C14V(r) ==
     <<"unparsable-lines-leave-every-parsed-event-unchanged", r.clean = r.dirty>>
   >>)
 
+(***************************** C18 *****************************************)
+Documented == {"chart", "ValueError", "RegexNotMatchError", "MissingRequiredField"}
+C18V(r) ==
+  IF r.maxdigits > 8 THEN Skip("numeric-token-longer-than-8-digits")
+  ELSE IF r.tsexp >= 64 THEN Skip("time-signature-exponent-64-or-more")
+  ELSE FirstFail(<<
+    <<"only-documented-errors-escape", r.outcome \in Documented>>,
+    <<"chart-and-every-event-render-with-str-and-repr", r.outcome = "chart" => r.rendered = "">>
+  >>)
+
 (***************************** C08 *****************************************)
 \* r.kind = "B":  r.nd digits of n, r.m / r.e the observed tempo as m * 2^e (m the 53-bit significand)
 \* "the nearest float": |m * 2^e - n/1000| <= half an ulp = 2^e / 2, i.e. |1000 m 2^e - n| <= 500 * 2^e
@@ -312,6 +322,7 @@ VerdictOf(p, r) ==
     [] p = "C04" -> C04V(r)
     [] p = "C05" -> C05V(r)
     [] p = "C08" -> C08V(r)
+    [] p = "C18" -> C18V(r)
     [] p = "C14" -> C14V(r)
     [] p = "C13" -> C13V(r)
     [] p = "C06" -> C06V(r)
